@@ -101,13 +101,13 @@ def scenarios():
     it = ['itr.open L0 I0']
     # while an iterator is open no second iterator can be obtained, so the CIF is observed only after releasing it
     fin = ['itr.abort I0', 'dump C0', 'autocommit C0']
-    S('cif_pktitr_next_packet (new packet)', 'itr.next I0', setup=it, modifies=False, obs=[], after=fin, same_after_retry=False, iterator=True)
-    S('cif_pktitr_next_packet (into existing packet)', 'itr.next I0 P0', setup=it, modifies=False, obs=['pkt.dump P0'], after=fin, same_after_retry=False, iterator=True)
-    S('cif_pktitr_next_packet (second)', 'itr.next I0 P0', setup=it + ['itr.next I0'], modifies=False, obs=['pkt.dump P0'], after=fin, same_after_retry=False, iterator=True)
-    S('cif_pktitr_next_packet (into a packet lacking two of the items)', 'itr.next I0 P1', setup=it + ['pkt.create P1 1 %s' % u('_b')], modifies=False, obs=['pkt.dump P1'], after=fin, same_after_retry=False, iterator=True)
-    S('cif_pktitr_next_packet (into an empty packet)', 'itr.next I0 P1', setup=it + ['pkt.create P1 0'], modifies=False, obs=['pkt.dump P1'], after=fin, same_after_retry=False, iterator=True)
-    S('cif_pktitr_next_packet (into a packet of another loop)', 'itr.next I0 P1', setup=it + ['pkt.create P1 2 %s %s' % (u('_fl'), u('_zz')), 'pkt.set P1 %s V2' % u('_fl')], modifies=False, obs=['pkt.dump P1'], after=fin, same_after_retry=False, iterator=True)
-    S('cif_pktitr_next_packet (NULL)', 'itr.next I0 -', setup=it, modifies=False, obs=[], after=fin, same_after_retry=False, iterator=True)
+    S('cif_pktitr_next_packet (new packet)', 'itr.next I0', setup=it, modifies=False, obs=[], after=fin, iterator=True)
+    S('cif_pktitr_next_packet (into existing packet)', 'itr.next I0 P0', setup=it, modifies=False, obs=['pkt.dump P0'], after=fin, iterator=True)
+    S('cif_pktitr_next_packet (second)', 'itr.next I0 P0', setup=it + ['itr.next I0'], modifies=False, obs=['pkt.dump P0'], after=fin, iterator=True)
+    S('cif_pktitr_next_packet (into a packet lacking two of the items)', 'itr.next I0 P1', setup=it + ['pkt.create P1 1 %s' % u('_b')], modifies=False, obs=['pkt.dump P1'], after=fin, iterator=True)
+    S('cif_pktitr_next_packet (into an empty packet)', 'itr.next I0 P1', setup=it + ['pkt.create P1 0'], modifies=False, obs=['pkt.dump P1'], after=fin, iterator=True)
+    S('cif_pktitr_next_packet (into a packet of another loop)', 'itr.next I0 P1', setup=it + ['pkt.create P1 2 %s %s' % (u('_fl'), u('_zz')), 'pkt.set P1 %s V2' % u('_fl')], modifies=False, obs=['pkt.dump P1'], after=fin, iterator=True)
+    S('cif_pktitr_next_packet (NULL)', 'itr.next I0 -', setup=it, modifies=False, obs=[], after=fin, iterator=True)
     S('cif_pktitr_update_packet', 'itr.update I0 P1', setup=it + ['itr.next I0', 'pkt.create P1 2 %s %s' % (u('_b'), u('_c')), 'pkt.set P1 %s V3' % u('_b'), 'pkt.set P1 %s V1' % u('_c')],
       obs=[], after=['itr.close I0', 'dump C0', 'autocommit C0'], iterator=True)
     S('cif_pktitr_remove_packet', 'itr.remove I0', setup=it + ['itr.next I0'], obs=[], after=['itr.close I0', 'dump C0', 'autocommit C0'], retry=False, iterator=True)
@@ -200,7 +200,7 @@ def scenarios():
         if TIER != 'quick':
             bigl = ['loop.create H2 %s %d %s L2' % (u('big'), npk + 1, ' '.join(u(n) for n in names)), bigp, 'pkt.set P2 %s V0' % u(names[npk]), 'loop.addpkt L2 P2', 'loop.addpkt L2 P2']
             S('cif_loop_get_packets (%d items)' % (npk + 1), 'itr.open L2 I0', setup=bigl, obs=[], modifies=False, retry=False)
-            S('cif_pktitr_next_packet (%d items, into an existing packet)' % (npk + 1), 'itr.next I0 P0', setup=bigl + ['itr.open L2 I0'], modifies=False, obs=[], after=['itr.abort I0', 'autocommit C0'], same_after_retry=False, iterator=True)
+            S('cif_pktitr_next_packet (%d items, into an existing packet)' % (npk + 1), 'itr.next I0 P0', setup=bigl + ['itr.open L2 I0'], modifies=False, obs=[], after=['itr.abort I0', 'autocommit C0'], iterator=True)
             S('cif_loop_add_packet (%d items)' % (npk + 1), 'loop.addpkt L2 P2', setup=bigl, obs=['autocommit C0'], after=['loop.names L2'])
     # utilities
     S('cif_normalize', 'util.norm %s' % u('_A\u00c9e\u0301\u212b name'), obs=[], modifies=False, base=False)
